@@ -359,6 +359,7 @@ pub fn run(ctx: &Ctx) -> &'static str {
         || strategy(mo),
         |_| |c: &Case, o: &mut Obs| check(c, o, ctx),
     );
+    crate::props::cli::run(ctx);
     // "no time-based recovery" as the real loop hands the mode to housekeeping, across run-time mode switches
     crate::props::e2e::run(ctx, crate::props::e2e::Phase::ModeTicks, ctx.tier.pick(1, 2));
     "exploration"
